@@ -6,6 +6,7 @@ import KsVerif.Redis.Driver
 import KsVerif.Amqp.Driver
 import KsVerif.Kfl.MacroDriver
 import KsVerif.Kfl.Driver
+import KsVerif.Stages.Driver
 open KsVerif
 
 /-- One case: family, payload, implementation observation → verdict. -/
@@ -29,6 +30,8 @@ def judge (fam payload impl : String) : Verdict :=
   | "sched.dump" => Sched.judgeDump payload impl
   | _ =>
     if fam.startsWith "cost." then Cost.judge payload impl
+    else if fam.startsWith "stages." then Stages.judgeStages (fam.drop 7).toString payload impl
+    else if fam.startsWith "queries." then Stages.judgeQueries (fam.drop 8).toString payload impl
     else if fam.startsWith "sched.match." then Sched.judgeMatch (fam.drop 12).toString payload impl
     else .bad "unknown-family"
 
